@@ -86,6 +86,9 @@ def run_noauth_priv(R, variant, priv_pw, engine_id, marker):
 PADDING = [b""]  # octets the agent appends to the scoped PDU before encrypting it
 
 
+INTERLUDE = [None]  # "lost" / "garbage": another user's call on the same client fails first
+
+
 def run_case(R, level, variant, op, auth_pw, priv_pw, engine_id, ctx_name, boots, tshift, marker, rotate=None, ctx_engine=b"", report_ctx=None):
     hashname = "md5" if "md5" in level else "sha1"
     db = {BASE + (i, 0): ("str", b"value-%d-" % i + hashlib.sha256(b"v%d" % i).digest()[:10]) for i in range(1, 6)}
@@ -110,8 +113,42 @@ def run_case(R, level, variant, op, auth_pw, priv_pw, engine_id, ctx_name, boots
     case = {"padding": "hex:" + PADDING[0].hex(), "report_ctx": "hex:" + (report_ctx or b"").hex(), "level": level, "variant": variant, "op": op, "auth_pw": "hex:" + auth_pw.hex(), "priv_pw": "hex:" + priv_pw.hex(), "engine_id": "hex:" + engine_id.hex(),
             "ctx_name": "hex:" + ctx_name.hex(), "ctx_engine": "hex:" + ctx_engine.hex(), "boots": boots, "tshift": tshift, "marker": "hex:" + marker.hex()}
     w.seam.budget = 40
-    privxf.CALLS.clear()
     c = w.client
+    case["interlude"] = INTERLUDE[0]
+    if INTERLUDE[0]:
+        # the path after a failure: inside a reconfigure() block ANOTHER user (other
+        # passwords) asks this engine something and never sees the answer - lost, or
+        # garbage comes back - and the caller shrugs.  The operation under test is the
+        # ordinary next call of the client's own user.
+        from puresnmp import V3 as _V3, Auth as _Auth, Priv as _Priv
+
+        a_auth, a_priv = b"admin-" + auth_pw, b"admin-" + priv_pw + b"-2"
+        w.agent.users[b"admin"] = rig.agent_user_for(level, user="admin", auth_pw=a_auth, priv_pw=a_priv, variant=variant)
+        inner = w.seam.responder
+
+        def unlucky(data, inner=inner, how=INTERLUDE[0]):
+            resp = inner(data)
+            try:
+                encrypted = "encrypted" in ber.decode_message(data)
+            except ber.BerError:
+                encrypted = False
+            if not encrypted:
+                return resp  # the discovery goes through
+            return None if how == "lost" else b"\x30\x03\x02\x01\x03"
+
+        w.seam.responder = unlucky
+        try:
+            with c.reconfigure(credentials=_V3("admin", _Auth(a_auth, hashname), _Priv(a_priv, variant))):
+                rig.outcome(lambda: drive(c.get(OID(BASE + (1, 0)))))
+        except Exception:  # noqa: BLE001
+            pass
+        finally:
+            w.seam.responder = inner
+        w.seam.reset(budget=40)
+        w.agent.requests.clear()
+        w.agent.counters.clear()
+        R.mon["cases_after_another_users_failed_call"] += 1
+    privxf.CALLS.clear()
     try:
         if op == "get":
             res = rig.outcome(lambda: drive(c.get(OID(BASE + (1, 0)))))
@@ -359,7 +396,11 @@ def run(R):
         report_ctx = bytes([0x80]) + bytes(rng.getrandbits(8) for _ in range(rng.randint(4, 31))) if i % 7 == 3 else None
         # one case in three: the agent pads the scoped PDU to a block size before encrypting
         PADDING[0] = bytes(rng.choice((0, 1, 2, 7, 8, 0xFF)) for _ in range(rng.choice((1, 2, 3, 7, 8, 15)))) if i % 3 == 1 else b""
-        run_case(R, level, variant, op, auth_pw, priv_pw, engine_id, ctx_name, boots, tshift, marker, rotate=rotate, ctx_engine=ctx_engine, report_ctx=report_ctx)
+        INTERLUDE[0] = ("lost", "garbage")[(i // 6) % 2] if i % 6 == 2 else None
+        try:
+            run_case(R, level, variant, op, auth_pw, priv_pw, engine_id, ctx_name, boots, tshift, marker, rotate=rotate, ctx_engine=ctx_engine, report_ctx=report_ctx)
+        finally:
+            INTERLUDE[0] = None
         PADDING[0] = b""
         if i % 10 == 7:
             run_noauth_priv(R, variant, priv_pw, engine_id, marker)
@@ -484,6 +525,7 @@ def replay(R, v):
     c = v["case"]
     h = lambda k: bytes.fromhex(c[k][4:])  # noqa: E731
     PADDING[0] = bytes.fromhex(c.get("padding", "hex:")[4:])
+    INTERLUDE[0] = c.get("interlude")
     if c.get("class") == "later-requests":
         later_requests(R)
         return
